@@ -24,8 +24,13 @@ def jobs(tier):
             j.count_funcs = {'call', 'VARR_MIR_val_texpand', 'VARR__MIR_arg_desc_texpand', 'VARR_MIR_val_taddr', 'VARR__MIR_arg_desc_taddr',
                              'VARR_MIR_var_tlength', 'VARR_MIR_var_taddr', 'MIR_realloc', 'get_i', 'MIR_all_blk_type_p', 'MIR_get_error_func'}
             out.append(j)
-    out.append(Job('ffi_cache.eq', 'harness/c05_ffi.c', 'h_ffi_eq', defines={'NDEBUG': None}, anns=['annot/ffi.ann'], unwind=3,
-                   object_bits=10, solver='cadical', timeout=600, no_standard_checks=True))
+    e = Job('ffi_cache.eq', 'harness/c05_ffi.c', 'h_ffi_eq', defines={'NDEBUG': None}, anns=['annot/ffi.ann'], unwind=3,
+            object_bits=10, solver='cadical', timeout=600, no_standard_checks=True)
+    # used only when the loop contract no longer fits the code: same harness, <= 3 arguments/results, loop unwound
+    e.fallback = Job('ffi_cache.eq#bounded-fallback', 'harness/c05_ffi.c', 'h_ffi_eq', defines={'NDEBUG': None, 'VP_SMALL': None}, anns=[],
+                     unwind=5, object_bits=10, solver='cadical', timeout=600, no_standard_checks=True, kind='bounded',
+                     bound='at most 3 arguments and 3 results, loop unwound, no loop contract', loop_contracts=False)
+    out.append(e)
     return out
 
 
